@@ -16,7 +16,7 @@ var Driver = core.Driver{ID: "C02", Level: "model_checking", Run: run, Replay: r
 
 var versions = []string{"1.0", "1.1", "1.2", "1.3", "1.4", "1.5", "1.6", "1.7", "2.0"}
 var encs = []string{"none", "user", "owner", "both"}
-var filtersSeekable = []string{"", "", "Flate", "ASCII85", "ASCIIHex+Flate", "RunLength", "LZW", "Flate12+ASCIIHex+ASCII85", "ASCII85+LZW0+RunLength", "RunLength"}
+var filtersSeekable = []string{"", "", "Flate", "ASCII85", "ASCIIHex+Flate", "RunLength", "LZW", "Flate12+ASCIIHex+ASCII85", "ASCII85+LZW0+RunLength", "RunLength", "pre:Flate", "pre:ASCII85+LZW0+RunLength"}
 
 // Family is a pair of model constants.
 type Family struct{ ObjStm, Seekable bool }
